@@ -84,11 +84,30 @@ var (
 	errSrcFatal = errors.New("verif: injected fatal source error")
 	errCbFatal  = errors.New("verif: injected callback error")
 
-	fatalErrNames = [...]string{"sentinel", "context.Canceled", "wraps-context.Canceled", "context.DeadlineExceeded", "wraps-stream.End"}
-	srcFatalErrs  = [...]error{errSrcFatal, context.Canceled, fmt.Errorf("verif: upstream gave up: %w", context.Canceled),
-		context.DeadlineExceeded, fmt.Errorf("verif: upstream broke: %w", stream.End)}
+	fatalErrNames = [...]string{"sentinel", "context.Canceled", "wraps-context.Canceled", "context.DeadlineExceeded", "wraps-stream.End",
+		"stream.ErrClosedPipe", "wraps-stream.ErrClosedPipe", "stream.ErrMoreThanOne", "stream.ErrEmpty", "stream.End"}
+	srcFatalErrs = [...]error{errSrcFatal, context.Canceled, fmt.Errorf("verif: upstream gave up: %w", context.Canceled),
+		context.DeadlineExceeded, fmt.Errorf("verif: upstream broke: %w", stream.End),
+		stream.ErrClosedPipe, fmt.Errorf("verif: upstream lost its peer: %w", stream.ErrClosedPipe), stream.ErrMoreThanOne, stream.ErrEmpty,
+		nil} // a source that returns stream.End itself has ended: not a failure
 	cbFatalErrs = [...]error{errCbFatal, context.Canceled, fmt.Errorf("verif: callback gave up: %w", context.Canceled),
-		context.DeadlineExceeded, fmt.Errorf("verif: callback broke: %w", stream.End)}
+		context.DeadlineExceeded, fmt.Errorf("verif: callback broke: %w", stream.End),
+		stream.ErrClosedPipe, fmt.Errorf("verif: callback lost its peer: %w", stream.ErrClosedPipe), stream.ErrMoreThanOne, stream.ErrEmpty,
+		stream.End}
+)
+
+// The library's own exported error values (stream.ErrClosedPipe, ErrMoreThanOne, ErrEmpty; no other
+// package of the library exports one) are failures like any other when a source or a callback
+// returns them. ekBareEnd: a CALLBACK that returns the bare stream.End value - no doc of a combinator
+// lets a callback signal the end ("If f returns an error, terminates the stream early"), so it is a
+// failure E and the combinator that owns the callback must report E itself. Since E is the End value,
+// what its consumer receives is stream.End; that is accepted as the report of E (the outputs must be
+// the prefix before the fault), and only judged where the owner of the callback is what the harness
+// consumes directly (item by item) or is the reducer: what a further combinator makes of an End it
+// receives from below is the normal-end behaviour and not this clause.
+const (
+	ekNewFrom = 5 // first of the library's own values
+	ekBareEnd = 9
 )
 
 const nFatalErrKinds = len(fatalErrNames)
